@@ -32,12 +32,13 @@ Proof. exact fn_header_only. Qed.
 Print Assumptions C03_header_only.
 
 (* non-vacuity: S6F11 (event report) with a nested value *)
+Definition dummy_entry : fentry := {| f_name := ""; f_stream := 0; f_function := 0; f_sfdl := None; f_to_host := false;
+  f_to_equipment := false; f_has_reply := false; f_reply_required := false; f_multi_block := false |}.
+Definition s6f11 : fentry := match find (same_sf 6 11) catalogue with Some x => x | None => dummy_entry end.
 Example C03_sample_in_domain :
-  exists e s, In e catalogue /\ f_stream e = 6 /\ f_function e = 11 /\ fn_structure e = Ok (Some s) /\
-  wf (VRec [VNum U4 [1%Z]; VNum U2 [10%Z]; VArr [VRec [VText false [82]; VArr [VNum I8 [(-1)%Z]; VText false []]]]]) (erase s) = true.
-Proof.
-  set (e := match find (same_sf 6 11) catalogue with Some x => x | None => {| f_name := ""; f_stream := 0; f_function := 0; f_sfdl := None;
-             f_to_host := false; f_to_equipment := false; f_has_reply := false; f_reply_required := false; f_multi_block := false |} end).
-  exists e. exists (match fn_structure e with Ok (Some s) => s | _ => SRec [] end).
-  split; [vm_compute; tauto|]. repeat split; vm_compute; reflexivity.
-Qed.
+  find (same_sf 6 11) catalogue = Some s6f11 /\
+  match fn_structure s6f11 with
+  | Ok (Some s) => wf (VRec [VNum U4 [1%Z]; VNum U2 [10%Z]; VArr [VRec [VText false [82]; VArr [VNum I8 [(-1)%Z]; VText false []]]]]) (erase s) = true
+  | _ => False
+  end.
+Proof. split; vm_compute; reflexivity. Qed.
